@@ -28,6 +28,23 @@ PushPair == {<<"cache", "remote">>}
 FetchPair == {<<"remote", "cache">>}
 ShallowIdxModes == {<<TRUE, FALSE>>, <<TRUE, TRUE>>, <<FALSE, FALSE>>}
 
+BothPairs == PushPair \cup FetchPair
+AllModes == {<<TRUE, FALSE>>, <<TRUE, TRUE>>, <<FALSE, FALSE>>, <<FALSE, TRUE>>}
+IdxModes == {<<TRUE, TRUE>>, <<FALSE, TRUE>>, <<TRUE, FALSE>>}
+InitAny == InitEmpty \cup InitPush \cup InitFetch
+AllOpKinds == {"add", "tamper", "extdel", "check", "status", "cmpstatus", "gc", "transfer", "abort"}
+HonestOpKinds == {"add", "check", "status", "cmpstatus", "gc", "transfer", "abort"}
+
+\* one store holding every mix of absent / intact / corrupt-unprotected objects, the other empty or full
+FreshOf(s) == IF ClassDef[s] = "local" THEN "ok_p" ELSE "ok_u"
+MixOf(s, X, B) == [o \in FilesDef \cup DirsDef |-> IF o \in X THEN (IF o \in B THEN "bad_u" ELSE FreshOf(s)) ELSE "none"]
+InitMixed ==
+    { [s \in StoresDef |-> IF s = a THEN MixOf(a, X, B) ELSE MixOf(s, Y, {})] :
+        a \in StoresDef, X \in SUBSET (FilesDef \cup DirsDef), B \in SUBSET FilesDef,
+        Y \in {{}, FilesDef \cup DirsDef} }
+OneStep == TLCGet("level") < 2
+TwoSteps == TLCGet("level") < 3
+
 \* bound on the length of behaviours
 Depth == 22
 DepthOK == TLCGet("level") <= Depth
